@@ -136,6 +136,21 @@ func init() { mqtt.VerifEvent = defaultHook }
 func normalizeCtx(evs []syncEvent) []syncEvent {
 	out := append([]syncEvent(nil), evs...)
 	for i, e := range out {
+		if e.site == "dc.dial" && len(e.args) == 2 && e.args[0] == 0 && e.args[1] == 0 {
+			// same for the hook after a failed dial: the code reads the context after the hook did;
+			// the context.Canceled return hands the connection semaphore back without touching
+			// the write semaphore
+			for j := i + 1; j < len(out); j++ {
+				if out[j].g != e.g {
+					continue
+				}
+				if out[j].site == "csSend" {
+					out[i].args = []int{0, 1}
+				}
+				break
+			}
+			continue
+		}
 		if e.site != "ctx" || len(e.args) == 0 || e.args[0] != 0 {
 			continue
 		}
